@@ -366,7 +366,7 @@ const eventInfo_t& EventSystem::FindEventInfoChecked(eventName_t s) const
 
 const eventInfo_t* EventSystem::FindEventInfo(eventName_t s) const
 {
-    if (s > 0 && s < eventDefName.size())
+    if (s > 0 && s <= eventDefName.size())
     {
         return &commandList[s];
     }
